@@ -49,6 +49,9 @@ Section Dict.
     | [] => None
     | (k', v') :: r => if eqb k' k then Some v' else dget r k
     end.
+  (* d.setdefault(k, v): keep an existing entry *)
+  Definition dsetdefault (d : list (K * V)) (k : K) (v : V) : list (K * V) :=
+    match dget d k with Some _ => d | None => d ++ [(k, v)] end.
   Definition dget_default (d : list (K * V)) (k : K) (dflt : V) : V :=
     match dget d k with Some v => v | None => dflt end.
 End Dict.
